@@ -246,6 +246,40 @@ func checkC14(r *Run) {
 		n := n
 		reqs = append(reqs, func() *descgen.Entry { return descgen.OptionVariant(descgen.CuratedByName(n), r.Seed, 1) })
 	}
+	// several exported types with sorting disabled (output order must follow the descriptor, not a map)
+	for _, n := range []string{"k7", "k9", "k10a", "k5"} {
+		n := n
+		reqs = append(reqs, func() *descgen.Entry {
+			e := descgen.CuratedByName(n)
+			e.Cfg.Sort, e.Cfg.SortSet = false, true
+			for _, m := range e.File.Messages {
+				if len(e.Cfg.Types) < 5 && !contains(e.Cfg.Types, m.Name) {
+					e.Cfg.Types = append(e.Cfg.Types, m.Name)
+				}
+			}
+			return descgen.Rename(e, n+"unsorted")
+		})
+	}
+	// the same field addressed under both key forms with different values in every option map
+	for _, n := range []string{"k9", "k5"} {
+		n := n
+		reqs = append(reqs, func() *descgen.Entry {
+			e := descgen.CuratedByName(n)
+			c := e.Cfg
+			c.NameOverrides, c.Validators, c.PlanModifiers = map[string]string{}, map[string][]string{}, map[string][]string{}
+			for i, o := range descgen.Occurrences(e.File, c.Types) {
+				if i%3 != 0 || o.Path == o.Key {
+					continue
+				}
+				c.NameOverrides[o.Path], c.NameOverrides[o.Key] = fmt.Sprintf("by_path_%d", i), fmt.Sprintf("by_key_%d", i)
+				c.Validators[o.Path], c.Validators[o.Key] = []string{descgen.V(fmt.Sprintf("path%d", i))}, []string{descgen.V(fmt.Sprintf("key%d", i))}
+				c.PlanModifiers[o.Path], c.PlanModifiers[o.Key] = []string{descgen.PM(fmt.Sprintf("path%d", i))}, []string{descgen.PM(fmt.Sprintf("key%d", i))}
+				c.RequiredFields = append(c.RequiredFields, o.Path)
+				c.ComputedFields = append(c.ComputedFields, o.Key)
+			}
+			return descgen.Rename(e, n+"bothkeys")
+		})
+	}
 	nr := r.pick(4, 90)
 	for i := 0; i < nr; i++ {
 		i := i
@@ -806,4 +840,13 @@ func init() {
 		Technique: "runtime monitoring with fault injection into the request: function-set and function-text differential",
 		Rule:      "descriptors without temporal fields (k5, k10a, k8, k2, seeded random) with two selected types and no time_type / duration_type configured; faults: one unmappable field (timestamp, duration, map with int32 key; counters fault:*) appended to every message reachable from a selected type, one at a time; oracle: exit 0, no function of any selected type that reaches the field, a new stderr line naming each such type, functions of the other selected types byte-identical to the fault-free run (counter spared-function-texts-compared); the same request with an exclude_fields entry for the field regenerates all functions byte-identically to the fault-free run and compiles; distinct = distinct (descriptor, position, fault kind) triples",
 		Check:     checkC18})
+}
+
+func contains(l []string, s string) bool {
+	for _, x := range l {
+		if x == s {
+			return true
+		}
+	}
+	return false
 }
